@@ -389,6 +389,6 @@ func init() { register(c16.key(), c16.Oracle) }
 
 func TestC16(t *testing.T) {
 	c := c16
-	c.Checks = n(120, 1500)
+	c.Checks = n(300, 2500)
 	c.Run(t)
 }
